@@ -269,6 +269,60 @@ theorem C11_blocknums_unique_payload_last (cfg : Cfg) (st : St) (now : Nat) (sp 
     · rw [h1, (bumpHop_keeps p).1, ht]
     · rw [h2, (bumpHop_keeps p).2.1]; exact hn
 
+/-- **Duplicate block numbers are refused at reception.** A received bundle in which two blocks
+    share a number (or one is numbered 0) never becomes a container: `BundleContainer(...)` raises
+    in `reload`, the exception leaves the CL callback, nothing is queued, nothing is recorded. -/
+theorem C11_duplicate_numbers_not_forwarded (cfg : Cfg) (st : St) (now : Nat) (rx : RxBundle)
+    (h : ¬ (rx.blocks.map Blk.num).Nodup ∨ 0 ∈ rx.blocks.map Blk.num) :
+    clRecv cfg st now rx = (st, [.escaped]) := by
+  have : loadOk rx.blocks = false := by
+    simp only [loadOk]
+    rcases h with h | h
+    · simp [h]
+    · have hc : (rx.blocks.map Blk.num).contains 0 = true := List.contains_iff_mem.2 h
+      rw [hc]; simp
+  simp [clRecv, this]
+
+/-- Hence every container in the forwarding queue has unique block numbers: together with
+    `C11_blocknums_unique_payload_last` whatever is transmitted has unique block numbers, for all
+    received bundles, whatever their numbering. -/
+theorem C11_queue_unique_numbers (cfg : Cfg) (st : St) (now : Nat) (rx : RxBundle) (c : Ctr)
+    (h : c ∈ (clRecv cfg st now rx).1.fwdQ) : c ∈ st.fwdQ ∨ c.nums.Nodup := by
+  unfold clRecv at h
+  split at h
+  · exact Or.inl h
+  · rename_i hl
+    have hnd : (rx.blocks.map Blk.num).Nodup := by
+      by_cases hn : (rx.blocks.map Blk.num).Nodup
+      · exact hn
+      · simp [loadOk, hn] at hl
+    rcases recv_cases cfg st now rx with h0 | ⟨_, c1, _, hblk, h1⟩
+    · rw [h0] at h; exact Or.inl h
+    · rw [h1] at h
+      unfold dispose at h
+      simp only [] at h
+      cases hd : hasAct c1.actions .delete
+      · simp only [hd, Bool.false_eq_true, if_false] at h
+        cases hf : hasAct c1.actions .forward <;> cases hv : hasAct c1.actions .deliver <;>
+          simp only [hf, hv, if_true, if_false, Bool.false_eq_true, finish_fwdQ, List.mem_append, List.mem_singleton] at h
+        · exact Or.inl h
+        · exact Or.inl h
+        · rcases h with h | rfl
+          · exact Or.inl h
+          · exact Or.inr (by unfold Ctr.nums; rw [hblk]; exact hnd)
+        · rcases h with h | rfl
+          · exact Or.inl h
+          · exact Or.inr (by unfold Ctr.nums; rw [hblk]; exact hnd)
+      · simp only [hd, if_true, finish_fwdQ] at h
+        exact Or.inl h
+
+def wDupNum : RxBundle :=
+  { primary := wPri 5000 0 60000, routeBits := [true],
+    blocks := [{ c := { typeCode := 192, blockNum := 2 } }, { c := { typeCode := 193, blockNum := 2 } }, wPay] }
+
+-- two extension blocks numbered 2 (harness stream `dupnum`): refused, nothing queued
+example : (clRecv wCfg {} 9000 wDupNum).2 = [.escaped] ∧ (clRecv wCfg {} 9000 wDupNum).1.fwdQ = [] := by decide
+
 -- the D10 witness meets the hypotheses of the theorems above
 example : wD10.nums.Nodup ∧ wD10.blocks.getLast? = some wPay := by decide
 
